@@ -437,7 +437,7 @@ type Config struct {
 	Defer       bool   `json:"defer"`
 	DryRun      bool   `json:"dry_run"`
 	ShuffleSeed int64  `json:"shuffle_seed"`
-	PanicKind   int    `json:"panic_kind"`         // 0 struct value, 1 error value, 2 string
+	PanicKind   int    `json:"panic_kind"`         // 0 struct value, 1 error value, 2 string, 3 error value wrapping a dig error
 	ValMask     uint32 `json:"val_mask,omitempty"` // universe positions realised as struct values V<i> (dynamic stubs only)
 }
 
